@@ -19,8 +19,8 @@ PID = "C01"
 LEVEL = "proof"
 LEAN = ["SaVerif.Props.C01"]
 META = {
-    "text": "Lean, three layers. (1) Backend: a backend groups the emitted token sequence with an operator-precedence parser over its binding-power table; proved for EVERY token tree and EVERY grammar: wb g t -> parse g (print t) = t, re-association of associative chains changes neither the text nor the value (print_norm, evalG_norm), and a compositional sufficient condition ok g t -> wb g (norm t) (each node only checks that its operands bind tighter than its own binding powers). (2) SQLAlchemy: construction (self_group / is_precedent / associative flattening / and_-or_ folding / negation rewriting / AsBoolean / _between_impl) and rendering (visit_* + sqlite/postgresql/mysql overrides) are transcribed; the operator tables are REGENERATED from the working tree. End-to-end theorems api_tree_value_bool / api_tree_value_num (for every API-call tree of the fragment, every row, the three-valued value the backend computes from the emitted text IS the meaning of the tree — grouping, flattening, single-clause collapse and negation rewriting included; build_bool_eval, negate_eval, boolConstruct_eval, constructForOp_eval) and api_tree_read_back / render_meaning_preserved: for EVERY API-call tree (NumU/BoolU, any size and nesting) the element `build` constructs is in the core fragment and well grouped (build_num, build_bool: induction through _binary_operate, _boolean_compare, _construct_for_op flattening, and_/or_ _construct, _negate), and (core_render_read_back) every well-grouped element (any size/depth) over + - * % / (truediv: sqlite `l / (r + 0.0)`, postgresql `l / CAST(r AS NUMERIC)`, mysql `l / r`) // (plain `/` for Integer operands where `/` is integer division, else FLOOR(l / r)) unary-minus = != < <= > >= IS IS-NOT AND OR NOT, parentheses and string concatenation (`a || b` chains, MySQL `concat(…)`; on SQLite PARTIAL: the F1 cells — an arithmetic operator exposed under `||` — are excluded by the hypothesis ConcatSafe / CSH, PostgreSQL and MySQL unconditional) and the bracket constructs (scalar subquery, function call, CAST, searched / simple CASE: separator chains `,` AS WHEN THEN ELSE inside brackets) renders to text that SQLite / PostgreSQL / MySQL read back as the same tree, hence (core_render_meaning_preserved) evaluates to the value of the fully parenthesised text under every interpretation with associative + * AND OR; the hypothesis coreCompat (higher regenerated precedence number => binds tighter in the grammar on both sides, naturally self-precedent operators are left-associative chains) is decided by the kernel per grammar; the constructors are proved to establish well-groupedness. For ALL operator pairs (incl. concat, LIKE family, IS DISTINCT, truediv/floordiv forms) the same is decided pairwise per dialect. (3) Semantic rewrites over three-valued logic, all operands: every pair of the regenerated negation table is a true negation except is_/is_not with themselves; every operator of the regenerated _associative set is associative. Ties checked on every run: model text == real compiler text on sqlite/postgresql/mysql/mariadb/default (type affinity included; on a textual difference both texts are re-read by the model grammar), real SQLite groups tokens exactly as the model's sqlite table (also with parentheses dropped at random), and the property itself is tested by executing the real statement on SQLite against an independent fully parenthesised reference over a table with NULLs, negatives, empty strings.",
-    "note": "Known findings (partial theorems + counterexamples in Lean, exact per-tree classification by neutralising the one defective decision): sqlite-concat-parent-arith-child (F1), negate-is-general-operand, between-bound-ungrouped, asbool-operand-ungrouped. The general theorem covers the core fragment incl. subquery / CAST / coalesce / CASE (value of a CAST and of a non-coalesce function abstract: class Abs); the backend's `/` itself is abstract in the value theorems (Val has no non-integer numbers); LIKE / BETWEEN / IN / IS DISTINCT are covered pairwise (depth 2) by kernel decision plus the per-tree runtime verdict (wb, reading == tree) on every generated tree. PostgreSQL/MySQL grammar tables are from documentation and NOT validated (no server); only SQLite executes. Scalar subqueries and literals are atoms; floating point + and * are treated as associative. Trusted: Lean kernel, harness, backend lexers/bracket matching (the model starts from tokens), SQLite's evaluation of fully parenthesised text.",
+    "text": "Lean, three layers. (1) Backend: a backend groups the emitted token sequence with an operator-precedence parser over its binding-power table; proved for EVERY token tree and EVERY grammar: wb g t -> parse g (print t) = t, re-association of associative chains changes neither the text nor the value (print_norm, evalG_norm), and a compositional sufficient condition ok g t -> wb g (norm t) (each node only checks that its operands bind tighter than its own binding powers). (2) SQLAlchemy: construction (self_group / is_precedent / associative flattening / and_-or_ folding / negation rewriting / AsBoolean / _between_impl) and rendering (visit_* + sqlite/postgresql/mysql overrides) are transcribed; the operator tables are REGENERATED from the working tree. End-to-end theorems api_tree_value_bool / api_tree_value_num (for every API-call tree of the fragment, every row, the three-valued value the backend computes from the emitted text IS the meaning of the tree — grouping, flattening, single-clause collapse and negation rewriting included; build_bool_eval, negate_eval, boolConstruct_eval, constructForOp_eval) and api_tree_read_back / render_meaning_preserved: for EVERY API-call tree (NumU/BoolU, any size and nesting) the element `build` constructs is in the core fragment and well grouped (build_num, build_bool: induction through _binary_operate, _boolean_compare, _construct_for_op flattening, and_/or_ _construct, _negate), and (core_render_read_back) every well-grouped element (any size/depth) over + - * % / (truediv: sqlite `l / (r + 0.0)`, postgresql `l / CAST(r AS NUMERIC)`, mysql `l / r`) // (plain `/` for Integer operands where `/` is integer division, else FLOOR(l / r)) unary-minus = != < <= > >= IS IS-NOT AND OR NOT, parentheses and LIKE / NOT LIKE / ILIKE / NOT ILIKE with or without ESCAPE over string-valued operands (ternary `x LIKE y ESCAPE c` nodes; `lower(x) LIKE lower(y)` outside PostgreSQL; value = the backend's LIKE, abstract in the theorems, SQLite's in the driver), string concatenation (`a || b` chains, MySQL `concat(…)`; on SQLite PARTIAL: the F1 cells — an arithmetic operator exposed under `||` — are excluded by the hypothesis ConcatSafe / CSH, PostgreSQL and MySQL unconditional) and the bracket constructs (scalar subquery, function call, CAST, searched / simple CASE: separator chains `,` AS WHEN THEN ELSE inside brackets) renders to text that SQLite / PostgreSQL / MySQL read back as the same tree, hence (core_render_meaning_preserved) evaluates to the value of the fully parenthesised text under every interpretation with associative + * AND OR; the hypothesis coreCompat (higher regenerated precedence number => binds tighter in the grammar on both sides, naturally self-precedent operators are left-associative chains) is decided by the kernel per grammar; the constructors are proved to establish well-groupedness. For ALL operator pairs (incl. concat, LIKE family, IS DISTINCT, truediv/floordiv forms) the same is decided pairwise per dialect. (3) Semantic rewrites over three-valued logic, all operands: every pair of the regenerated negation table is a true negation except is_/is_not with themselves; every operator of the regenerated _associative set is associative. Ties checked on every run: model text == real compiler text on sqlite/postgresql/mysql/mariadb/default (type affinity included; on a textual difference both texts are re-read by the model grammar), real SQLite groups tokens exactly as the model's sqlite table (also with parentheses dropped at random), construction is a pure function (in the model `build` is a function on immutable values, so extending an expression cannot change an existing one — trivially true in Lean; the tie to the real code is the DAG check: element objects SHARED between several expressions and re-used after being extended, for + * || chains, and_/or_ `&=`-style accumulation and clause lists, must still render and evaluate like the same tree built from fresh leaves), and the property itself is tested by executing the real statement on SQLite against an independent fully parenthesised reference over a table with NULLs, negatives, empty strings.",
+    "note": "Known findings (partial theorems + counterexamples in Lean, exact per-tree classification by neutralising the one defective decision): sqlite-concat-parent-arith-child (F1), negate-is-general-operand, between-bound-ungrouped, asbool-operand-ungrouped. The general theorem covers the core fragment incl. subquery / CAST / coalesce / CASE (value of a CAST and of a non-coalesce function abstract: class Abs); the backend's `/` itself is abstract in the value theorems (Val has no non-integer numbers); BETWEEN / IN / IS DISTINCT and LIKE over non-string operands are covered pairwise (depth 2) by kernel decision plus the per-tree runtime verdict (wb, reading == tree) on every generated tree. PostgreSQL/MySQL grammar tables are from documentation and NOT validated (no server); only SQLite executes. Scalar subqueries and literals are atoms; floating point + and * are treated as associative. Trusted: Lean kernel, harness, backend lexers/bracket matching (the model starts from tokens), SQLite's evaluation of fully parenthesised text.",
     "technique": "Lean 4: verified precedence-climbing parser round-trip by structural induction + decide over regenerated operator tables + transcribed constructors; differential correspondence of rendering on 5 dialects; execution oracle on SQLite",
     "design_ref": "DESIGN.md §3 C01, §2 F1",
 }
@@ -266,6 +266,124 @@ class Oracle:
         return self.classify(u), detail
 
 
+# ------------------------------------------------------------------------- shared sub-expressions
+# "construct is a pure function": building a new expression from an existing one must not change the
+# existing one.  In the Lean model this is trivially true (`build` is a function on immutable
+# values); the tie to the real code is this check: DAG-shaped inputs, where ONE element object is
+# an operand of several later expressions and is re-used after it has been extended.
+_FLAT = {
+    # operator: (operands to chain, an extension operand, trees that re-use the base)
+    "add": (lambda c: [c("ia"), c("ib"), c("ic"), ["li", 5]], lambda c: ["li", 7],
+            lambda b, c: [["mul", b, ["li", 2]], ["sub", ["li", 1], b], ["lt", b, c("ia")], ["neg", b],
+                          ["coalesce", [b, ["li", 0]]], ["case", None, [[["gt", b, ["li", 0]], b]], ["li", -1]]]),
+    "mul": (lambda c: [c("ia"), c("ib"), c("ic"), ["li", 3]], lambda c: ["li", 2],
+            lambda b, c: [["add", b, ["li", 1]], ["mod", b, ["li", 7]], ["ge", c("ib"), b], ["cast", "num", b]]),
+    "concat": (lambda c: [c("sa"), ["ls", "-"], c("sb"), ["ls", "x"]], lambda c: ["ls", "!"],
+               lambda b, c: [["eq", b, ["ls", "a-bx"]], ["concat", ["ls", "<"], b], ["like", b, ["ls", "a%"], None],
+                             ["coalesce", [b, ["ls", ""]]]]),
+    "and": (lambda c: [["gt", c("ia"), ["li", 0]], ["lt", c("ib"), ["li", 3]], ["is", c("ic"), ["null"]], c("ba")], lambda c: ["eq", c("ia"), c("ib")],
+            lambda b, c: [["not", b], ["or", [b, ["eq", c("ic"), ["li", 1]]]], ["case", None, [[b, ["li", 1]]], ["li", 0]]]),
+    "or": (lambda c: [["gt", c("ia"), ["li", 0]], ["lt", c("ib"), ["li", 3]], ["is", c("ic"), ["null"]], c("bb")], lambda c: ["ne", c("ia"), c("ib")],
+           lambda b, c: [["not", b], ["and", [b, ["eq", c("ic"), ["li", 1]]]], ["case", None, [[b, ["li", 1]]], ["li", 0]]]),
+}
+
+
+def _chain(op, items):
+    """left-nested chain as the API calls build it: ((x0 op x1) op x2) ...; and_/or_ accumulate `&=`-style"""
+    if op in ("and", "or"):
+        acc = [op, [items[0], items[1]]]
+        for x in items[2:]:
+            acc = [op, [acc, x]]
+        return acc
+    acc = [op, items[0], items[1]]
+    for x in items[2:]:
+        acc = [op, acc, x]
+    return acc
+
+
+def _extend(op, base, x):
+    return [op, [base, x]] if op in ("and", "or") else [op, base, x]
+
+
+def dag_sessions(ctx, deep):
+    """each session is a list of trees built IN ORDER with one memo: a tree that occurs inside a later
+    tree is the same element object there"""
+    from harness import lib_expr as L
+
+    c = lambda n: ["col", n]  # noqa
+    for op, (mk, mkext, reuse) in _FLAT.items():
+        items = mk(c)
+        ext = mkext(c)
+        for n in (2, 3, 4):
+            base = _chain(op, items[:n])
+            e1 = _extend(op, base, ext)
+            e2 = _extend(op, e1, items[0])
+            # the base is extended (twice), THEN re-used; and re-used, THEN extended
+            yield "flat-%s-%d" % (op, n), [base, e1] + reuse(base, c) + [e2] + reuse(e1, c)[:2] + [base, e1]
+            yield "flat-%s-%d-reuse-first" % (op, n), reuse(base, c)[:2] + [e1, e2] + reuse(base, c)[2:]
+            # clause-list form: and_(base, x, y) / or_(...) / base on the right side
+            if op in ("and", "or"):
+                yield "list-%s-%d" % (op, n), [base, [op, [base, ext, items[0]]], [op, [ext, base]], ["not", base], base]
+            else:
+                yield "right-%s-%d" % (op, n), [base, [op, ext, base], [op, base, base], base] + reuse(base, c)[:1]
+    big = ctx.tier == "thorough" or deep
+    g = L.TreeGen(ctx.rng, exotic=0.0)
+    for i in range(1500 if big else 80):
+        ty = ctx.rng.choice(["int", "int", "str", "bool", "num"])
+        base = g.expr(ty, ctx.rng.randint(1, 3))
+        sess = [base]
+        cur = base
+        for _ in range(ctx.rng.randint(2, 5)):
+            other = g.expr(ty, ctx.rng.randint(0, 2))
+            if ty == "bool":
+                t = ctx.rng.choice([["and", [cur, other]], ["or", [cur, other]], ["not", cur], ["and", [other, cur]],
+                                    ["case", None, [[cur, ["li", 1]]], None]])
+            elif ty == "str":
+                t = ctx.rng.choice([["concat", cur, other], ["concat", other, cur], ["eq", cur, other],
+                                    ["coalesce", [cur, other]]])
+            else:
+                t = ctx.rng.choice([["add", cur, other], ["mul", cur, other], ["add", other, cur], ["sub", cur, other],
+                                    ["lt", cur, other], ["neg", cur], ["mul", other, cur], ["coalesce", [cur, other]]])
+            sess.append(t)
+            if L.utype(t) == ty and ctx.rng.random() < 0.7:
+                cur = t  # keep extending the extended expression ...
+            if ctx.rng.random() < 0.4:
+                sess.append(base)  # ... and come back to the first one
+        yield "random", sess
+
+
+def check_session(orc, sess):
+    """build the trees of `sess` in order with shared sub-expression objects; afterwards every tree's
+    object must render and evaluate like the same tree built from fresh leaves.
+    -> list of (index, tree, detail) of the trees whose shared object changed"""
+    L = orc.L
+    memo = {}
+    objs = []
+    for t in sess:
+        try:
+            objs.append(L.to_sa(t, None, memo))
+        except Exception as ex:  # noqa
+            objs.append("error:" + type(ex).__name__)
+    bad = []
+    for i, (t, o) in enumerate(zip(sess, objs)):
+        fresh = orc.build(t)
+        if isinstance(o, str) or isinstance(fresh, str):
+            if isinstance(o, str) != isinstance(fresh, str):
+                bad.append((i, t, {"shared": o if isinstance(o, str) else "built", "fresh": fresh if isinstance(fresh, str) else "built"}))
+            continue
+        try:
+            a, b = L.compile_literal(o, "sqlite"), L.compile_literal(fresh, "sqlite")
+        except Exception as ex:  # noqa
+            continue
+        if a != b:
+            bad.append((i, t, {"shared_object_sql": a, "fresh_build_sql": b}))
+            continue
+        got, ref = orc.db.run_sa(o), orc.db.run_sa(fresh)
+        if not L.same_rows(got, ref):
+            bad.append((i, t, {"shared_object_sql": a, "first_difference": L.first_diff(got, ref)}))
+    return bad
+
+
 # ------------------------------------------------------------------------- run
 def trees(ctx, deep):
     from harness import lib_expr as L
@@ -486,6 +604,16 @@ def run(ctx, deep=False):
                 else:
                     eimpl.append("ok i%d" % v if isinstance(v, int) else "ok other")
         ctx.correspond("corr/c01:eval(Lean meaning of fragment trees == real SQLite, every row)", ecases, eimpl, ctx.driver(ereqs))
+    # ---- shared sub-expressions (DAG-shaped inputs): construct is a pure function
+    for kind, sess in dag_sessions(ctx, deep):
+        ctx.case("dag:" + json.dumps(sess), nontrivial=True)
+        ctx.count("dag-session=" + (kind if kind == "random" else kind.split("-")[0] + "-" + kind.split("-")[1]))
+        bad = check_session(orc, sess)
+        ctx.count("dag-trees-checked", len(sess))
+        for i, t, detail in bad[:1]:
+            ctx.count("dag=shared-object-changed")
+            detail = dict(detail, changed_tree=t, changed_index=i)
+            ctx.violation("c01-construct-not-pure-shared-subexpression-changed", {"session": sess, "mode": "dag"}, detail)
     orc.close()
     ctx.exhaustive = False
 
@@ -545,6 +673,15 @@ def replay_model_level(ctx, obj):
 def replay(ctx, obj):
     if obj["case"].get("mode") == "model-level":
         return replay_model_level(ctx, obj)
+    if obj["case"].get("mode") == "dag":
+        orc = Oracle()
+        try:
+            bad = check_session(orc, obj["case"]["session"])
+            print("replay C01 (shared sub-expressions) session of %d trees -> %s" % (
+                len(obj["case"]["session"]), json.dumps(bad[:1], default=str)))
+            return bool(bad)
+        finally:
+            orc.close()
     orc = Oracle()
     try:
         u = obj["case"]["u"]
